@@ -1850,14 +1850,29 @@ def _as_expression(stmts):
 class Inliner:
     """``Inliner(mod, cls_names, known)``: ``known`` = method names the rules are written against (never inlined)."""
 
-    def __init__(self, mod, cls_names: Sequence[str], known: Iterable[str], depth: int = 3, extended: bool = False):
+    def __init__(self, mod, cls_names: Sequence[str], known: Iterable[str], depth: int = 3, extended: bool = False, base_modules: Sequence = ()):
         """``extended``: also read through static / class-method helpers, tuple assignments (split into single assignments), loops over private
         generator helpers and ``with`` blocks on context managers defined in the module.  Off by default: other checkers that share this class
         were written against the plain behaviour."""
         from sa.source import mro_lookup
         self.mod, self.known, self.depth, self.extended = mod, set(known), depth, extended
         self.classes = [c for c in mod.classes() if c.name in cls_names]
-        self._lookup = lambda name: next((r[1] for c in self.classes for r in [mro_lookup(mod, c, name)] if r and isinstance(r[1], (ast.FunctionDef,))), None)
+        from sa.source import base_names as _base_names
+
+        def _lookup(name):
+            r = next((r[1] for c in self.classes for r in [mro_lookup(mod, c, name)] if r and isinstance(r[1], (ast.FunctionDef,))), None)
+            if r is None:
+                # a base class (mixin) defined in one of the given other modules
+                for c in self.classes:
+                    for b in _base_names(c):
+                        for om in base_modules:
+                            bc = om.find(b.split(".")[-1])
+                            if isinstance(bc, ast.ClassDef):
+                                rr = mro_lookup(om, bc, name)
+                                if rr and isinstance(rr[1], ast.FunctionDef):
+                                    return rr[1]
+            return r
+        self._lookup = _lookup
         self.inlined: Set[str] = set()        # helper names whose every visited call site was inlined
         self.refused: Dict[str, str] = {}
         self._views: Dict[int, ast.AST] = {}
@@ -2539,15 +2554,17 @@ def expand_calls(mod, expr, depth: int = 2):
 class Views:
     """Per-module Inliners for a checker: ``known`` = {module path: {class name: [method names the rules know]}}."""
 
-    def __init__(self, ctx, known: Dict[str, Dict[str, Sequence[str]]], extended: bool = False):
-        self.ctx, self.known, self.extended = ctx, known, extended
+    def __init__(self, ctx, known: Dict[str, Dict[str, Sequence[str]]], extended: bool = False, base_modules: Optional[Dict[str, Sequence[str]]] = None):
+        self.ctx, self.known, self.extended, self.base_modules = ctx, known, extended, base_modules or {}
         self._inl: Dict[str, Inliner] = {}
 
     def inliner(self, rel) -> Inliner:
         if rel not in self._inl:
             table = self.known.get(rel, {})
             names = {n for ns in table.values() for n in ns}
-            self._inl[rel] = Inliner(self.ctx.mod(rel), [c for c in table if c != "<module>"], names, extended=self.extended)
+            names |= {n for r2 in self.base_modules.get(rel, ()) for ns in self.known.get(r2, {}).values() for n in ns}
+            self._inl[rel] = Inliner(self.ctx.mod(rel), [c for c in table if c != "<module>"], names, extended=self.extended,
+                                     base_modules=[self.ctx.mod(r2) for r2 in self.base_modules.get(rel, ())])
         return self._inl[rel]
 
     def f(self, rel, qual):
